@@ -110,6 +110,14 @@ def run(P, chk, tier):
             if y.get("k") == "Ref" and any("users[userid].q" in d_ for d_ in flag_defs.get(y["ref"]["name"], ())):
                 return True
         return False
+    feas = {}
+
+    def _feasible_from(db_):
+        """Blocks reachable from the remember-block when constants assigned on the way decide the tests that follow
+        (`return 1` of an inlined helper, then `if (ret)`)."""
+        if db_ not in feas:
+            feas[db_] = tables.reach_under(hnr, {}, start=db_)[0]
+        return feas[db_]
     neff = 0
     for b, x in hnr.all_nodes():
         if b.id in other or not (b.id in reach_ping or b.id in reach_data):
@@ -137,8 +145,18 @@ def run(P, chk, tier):
             continue
         for db in mine:
             ncd = _ncd(hnr, db, b.id)
-            cnd = hnr.blocks[ncd].term.get("cond") if hnr.blocks[ncd].term else None
-            if cnd is None or not tests_holder(cnd) or _reaches(hnr, db, b.id):
+            # the remember-block is entered through a test of the holder: at the branch where the two ways part, or at
+            # a later test on the way to the remember-block (`if (lazy && is_repeat(&users[u].q, q))`)
+            idom = hnr.dominators()
+            xb, through = db, False
+            while xb is not None:
+                cnd = hnr.blocks[xb].term.get("cond") if hnr.blocks[xb].term else None
+                if xb != db and cnd is not None and tests_holder(cnd):
+                    through = True
+                if xb == ncd or xb == hnr.entry:
+                    break
+                xb = idom.get(xb)
+            if not through or (_reaches(hnr, db, b.id) and b.id in _feasible_from(db)):
                 okdup = False
         chk.site(r1, hnr, ir.loc(x), eff, not bad and okdup,
                  "behind cache, query memory and both pending-duplicate tests" if not bad and okdup else
@@ -151,6 +169,7 @@ def run(P, chk, tier):
     replay(P, E, chk)
     fingerprints(P, E, chk, hnr)
     rings(P, E, chk)
+    full_scan(P, E, chk)
     readonly_checks(P, chk)
 
 
@@ -393,7 +412,7 @@ def fingerprints(P, E, chk, hnr):
             same = any(s_ in ("qmem_cmc + %s * 4" % i_, "qmem_cmc + 4 * %s" % i_, "&qmem_cmc[%s * 4]" % i_) for i_ in idx for s_ in slots)
             if same:
                 verdicts.append(True)
-            elif tys and slots and not idx:
+            elif tys and slots and not any(re.search(r"qmem_cmc\s*\+\s*\w+\s*\*|&qmem_cmc\[", s_) for s_ in slots):
                 verdicts.append(None)            # both compared, but through some other addressing of the slots
             else:
                 verdicts.append(False)
@@ -412,6 +431,67 @@ def _table(P, unit, name):
     if g is None or g.get("init") is None or g["init"].get("k") != "Str":
         return None
     return list(bytes.fromhex(g["init"]["hex"]))[:g["init"].get("len")]
+
+
+def full_scan(P, E, chk):
+    """R7: the duplicate filters look at every remembered entry."""
+    from iosa import fieldinv
+    r7 = chk.rule("C16.R7", "every remembered entry is looked at",
+                  "the scan loops of answer_from_qmem and answer_from_dnscache are left only when the index has reached the "
+                  "ring length or on a path that reports a match (the stored answer is sent); an unused slot skips one "
+                  "entry, it does not end the scan (the rings are filled from slot 1, so slot 0 stays unused until the "
+                  "first wrap)", "E1 + loop exits", floor=2)
+    for fname in ("answer_from_qmem", "answer_from_dnscache"):
+        f = P.func(fname, "iodined.c")
+        an = E.analysis(f)
+        loops = fieldinv._loops(f)
+        if len(loops) != 1:
+            chk.undecided(r7, f, f.line, "%s: scan loop" % fname, "expected one loop, found %d" % len(loops))
+            continue
+        head, body = next(iter(loops.items()))
+        sends = {b.id for b, c in f.calls("write_dns")}
+        n = 0
+        for bid in sorted(body):
+            b = f.blocks[bid]
+            for si, s_ in enumerate(b.succs):
+                if s_ is None or s_ in body:
+                    continue
+                n += 1
+                c = sk(b.term["cond"]) if b.term and b.term.get("cond") is not None else None
+                line = ir.loc(c) if c is not None else f.line
+                # (a) the bound test
+                okb = False
+                if c is not None and c.get("k") == "Bin" and c["op"] in ("<", "<=", "!=", ">", ">=") and len(b.succs) == 2:
+                    l_, r_ = sk(c["a"][0]), sk(c["a"][1])
+                    lt, rt = (l_.get("t") or {}), (r_.get("t") or {})
+                    idx_like = l_.get("k") == "Ref" and l_["ref"].get("rk") == "local" and lt.get("k") in ("int", "ptr")
+                    lim_like = cval(r_) is not None or (r_.get("k") == "Ref" and r_["ref"].get("rk") in ("param", "local")) or \
+                        (r_.get("k") == "Bin" and r_["op"] == "+")
+                    okb = idx_like and lim_like and not any(y.get("k") in ("Sub", "Mem") or (y.get("k") == "Un" and y["op"] == "*")
+                                                            for y in ir.walk(c))
+                # (b) leaves towards the answer: the exit block, or what follows it, sends the stored answer
+                okm = bid in sends or s_ in sends or any(_reaches(f, s_, sb) for sb in sends if sb not in body) and \
+                    not _reaches_without(f, s_, sends)
+                chk.site(r7, f, line, "%s: loop left at `%s`" % (fname, pp(c)[:50] if c is not None else "?"), okb or okm,
+                         "index against the ring length" if okb else ("on the way to sending the stored answer" if okm else
+                         "the scan can end before every slot was looked at, without a match: a remembered query further on "
+                         "would be processed a second time"))
+        if n == 0:
+            chk.undecided(r7, f, f.line, "%s: scan loop" % fname, "no exit of the scan loop found")
+
+
+def _reaches_without(f, start, avoid):
+    """Can the function exit be reached from block `start` without passing a block in `avoid`?"""
+    seen, st = set(), [start]
+    while st:
+        x = st.pop()
+        if x in seen or x in avoid:
+            continue
+        seen.add(x)
+        if x == f.exit:
+            return True
+        st.extend(s for s in f.blocks[x].succs if s is not None)
+    return False
 
 
 def rings(P, E, chk):
